@@ -508,6 +508,8 @@ func (c *Chain) drawDiff(t *rapid.T, pre *ref.State, num uint64, version string,
 			}
 		}
 	}
+	// (a contract is never deployed and class-replaced in the same diff: core.StateDiff.Hash documents this as a sequencer
+	// guarantee, and a diff listing both is ambiguous for the hash; probing it was a generator false alarm, DESIGN 10.4)
 	// --- nonces and storage for existing + newly deployed contracts
 	var live []felt.Felt
 	for _, a := range u.Addrs {
